@@ -71,9 +71,9 @@ type childResult struct {
 	Exit       int
 	Summary    string
 	Violations []struct {
-		Rule string `json:"Rule"`
-		Key  string `json:"Key"`
-		Pos  string `json:"Pos"`
+		Rule string `json:"rule"`
+		Key  string `json:"key"`
+		Pos  string `json:"pos"`
 	}
 	Stderr string
 	tmp    string
